@@ -45,8 +45,11 @@ package provider
 //                                              this cycle and theirs had not, their keys wait for the next cycle
 //                                              (needs regions reprovided before, i.e. prefixes of mixed length;
 //                                              witnesses: unit outage, thorough tier, seed 1, cases 195 and 595)
-//   reprovide/gap-exceeds-bound/           #28 the schedule held a single region (observed white-box), so the
-//   schedule-grown-from-one-region             timer had been armed for its slot up to a full interval before,
+//   reprovide/gap-exceeds-bound/           #28 (labelled only when both were observed white-box: a StartProviding
+//   schedule-grown-from-one-region             call grew the schedule from one region, and later the cursor sat
+//                                              re-armed on that region at its own slot with several regions
+//                                              scheduled) the schedule held a single region, so the
+//                                              timer had been armed for its slot up to a full interval before,
 //                                              when a StartProviding added regions whose slots of this cycle
 //                                              had passed: at the alarm handleReprovide tells late regions by
 //                                              the time the timer has been running, takes every added region
@@ -315,6 +318,8 @@ type vC17Sim struct {
 	deferred  []vC17Deferred     // keys handed over during an outage and still queued when it ends
 	merges    []vC17Merge        // scheduled prefixes replaced by a shorter one during a StartProviding call
 	oneRegion time.Duration      // > 0: the StartProviding call at this time found a schedule of one region and added more
+	onePrefix string             // that region's prefix
+	stuckAt   time.Duration      // > 0: first time the cursor was seen re-armed on onePrefix at its own slot with more regions scheduled
 	nGCP      int
 	nSend     int
 	nSendFail int
@@ -872,12 +877,38 @@ func (s *vC17Sim) scheduleKeys(p *SweepingProvider) []string {
 	return out
 }
 
+// sampleCursor looks (white-box) for the state finding #28 leaves behind: after the schedule grew from
+// the single region onePrefix, more than one region is scheduled, yet the cursor is (still) onePrefix
+// and the timer was armed at onePrefix's own slot - handleReprovide re-armed the cursor on the same
+// prefix for a full interval, i.e. it took every other region for late. In a healthy schedule of
+// several regions the timer for the cursor is armed at the slot of the region before it.
+func (s *vC17Sim) sampleCursor(p *SweepingProvider) {
+	s.mu.Lock()
+	one, since, seen := s.onePrefix, s.oneRegion, s.stuckAt
+	s.mu.Unlock()
+	if since == 0 || seen > 0 {
+		return
+	}
+	p.scheduleLk.Lock()
+	stuck := false
+	if p.schedule.Size() > 1 && string(p.scheduleCursor) == one && !p.scheduleTimerStartedAt.IsZero() && p.scheduleTimerStartedAt.Sub(s.base) > since {
+		d := p.timeOffset(p.scheduleTimerStartedAt) - p.reprovideTimeForPrefix(p.scheduleCursor)
+		stuck = d > -time.Second && d < time.Second
+	}
+	p.scheduleLk.Unlock()
+	if stuck {
+		s.mu.Lock()
+		s.stuckAt = s.now()
+		s.mu.Unlock()
+	}
+}
+
 // noteMerges compares the schedule before and after a StartProviding call made at time t.
 func (s *vC17Sim) noteMerges(t time.Duration, before, after []string) {
 	if len(before) == 1 && len(after) > 1 {
 		s.mu.Lock()
 		if s.oneRegion == 0 {
-			s.oneRegion = t
+			s.oneRegion, s.onePrefix = t, before[0]
 		}
 		s.mu.Unlock()
 	}
@@ -1104,9 +1135,9 @@ func (s *vC17Sim) evaluate(end time.Duration, windows bool) vC17Verdict {
 								break
 							}
 						}
-						if during == "" && s.oneRegion > 0 && s.oneRegion < hi {
+						if during == "" && s.stuckAt > 0 && s.stuckAt < hi {
 							sig += "/schedule-grown-from-one-region"
-							during = fmt.Sprintf("; the schedule held one region (timer armed for its slot long before) when StartProviding added more at +%v", s.oneRegion.Round(time.Second))
+							during = fmt.Sprintf("; the schedule held the single region %q when StartProviding added more at +%v; seen at +%v: cursor re-armed on %q at its own slot for a full interval with several regions scheduled (every other region taken for late)", s.onePrefix, s.oneRegion.Round(time.Second), s.stuckAt.Round(time.Second), s.onePrefix)
 						}
 						report(&v.gapFail, "reprovide-window", sig, "kept since +%v: no ADD_PROVIDER at all during %v (= interval %v + max delay %v + slack %v%s): %s%s", sg.s.Round(time.Second), hi-x, vC17Interval, vC17MaxDelay, slack, across, s.describe(k, x, hi), during)
 					}
@@ -1266,7 +1297,7 @@ func (s *vC17Sim) describeCase(p vC17Params) {
 // vC17Flaky switches transient recipient errors on in every 5th case without dead recipients (no PRNG
 // draw: the other parameters of a case do not depend on it).
 func vC17Flaky(c *vh.Case, p *vC17Params) {
-	if c.Idx%5 == 2 && p.deadPct == 0 {
+	if c.Idx%5 == 2 && p.deadPct == 0 && os.Getenv("VERIF_C17_NOFLAKY") == "" { // env: debugging aid
 		p.flakyPct = 20
 	}
 }
@@ -1769,6 +1800,7 @@ func TestVerif_C17_outage(t *testing.T) {
 						step = u - sim.now()
 					}
 					time.Sleep(step)
+					sim.sampleCursor(prov)
 					if !prov.connectivity.IsOnline() {
 						noticed = true
 					}
@@ -1821,6 +1853,11 @@ func TestVerif_C17_outage(t *testing.T) {
 				}
 				sim.mu.Unlock()
 				c.Logf("+%v outage ends (noticed=%v, went Offline=%v, back online after %v: %v)", u.Round(time.Second), noticed, wentOffline, (sim.now() - u).Round(time.Second), backOnline)
+				sim.sampleCursor(prov)
+				for handover && sim.now()+5*time.Minute < total {
+					time.Sleep(5 * time.Minute)
+					sim.sampleCursor(prov)
+				}
 				sim.sleepUntil(total)
 				sim.rest()
 				end = sim.now()
